@@ -40,8 +40,8 @@ func c16Bits(t string) int {
 func c16Signed(t string) bool { return t[0] == 'i' }
 
 var (
-	big1   = big.NewInt(1)
-	pow2   = func(n int) *big.Int { return new(big.Int).Lsh(big1, uint(n)) }
+	big1 = big.NewInt(1)
+	pow2 = func(n int) *big.Int { return new(big.Int).Lsh(big1, uint(n)) }
 )
 
 func c16Hex(v *big.Int, bits int) string {
@@ -416,8 +416,8 @@ func c16Check(env *core.Env, ci any) (res core.Result) {
 
 func init() {
 	core.Register(&core.Prop{
-		ID: "C16",
-		Rule: "rapid-generated batches of (op, type in {i128,u128,i256,u256}, by-value or *_ptr entry point, operands built limb by limb from {0, all-ones, 2^31, 2^32-1, ...}, sign/range boundaries, 2^k+d, small values, and second operands related to the first (equal, +-2, negated)) executed by runtime/core/bigint.c (ASan+UBSan co-process; 64-bit-limb and 32-bit-limb builds) and compared with math/big reduced mod 2^N (two's complement, truncating division, arithmetic right shift for signed, counts in [0,N), pow with non-negative exponent, decimal/0x/0o/0b text with underscores incl. out-of-range text that must wrap). Division by zero and negative exponents are unspecified and skipped. non-trivial = carry/borrow/partial product crosses a 64-bit limb boundary (add/sub/mul), a multi-limb operand (div/mod/bitwise/shift by non-multiple of 64/text), comparison decided below the top limb or by sign, result of pow beyond one limb; distinct = (limb build, op, type, variant, operands)",
+		ID:    "C16",
+		Rule:  "rapid-generated batches of (op, type in {i128,u128,i256,u256}, by-value or *_ptr entry point, operands built limb by limb from {0, all-ones, 2^31, 2^32-1, ...}, sign/range boundaries, 2^k+d, small values, and second operands related to the first (equal, +-2, negated)) executed by runtime/core/bigint.c (ASan+UBSan co-process; 64-bit-limb and 32-bit-limb builds) and compared with math/big reduced mod 2^N (two's complement, truncating division, arithmetic right shift for signed, counts in [0,N), pow with non-negative exponent, decimal/0x/0o/0b text with underscores incl. out-of-range text that must wrap). Division by zero and negative exponents are unspecified and skipped. non-trivial = carry/borrow/partial product crosses a 64-bit limb boundary (add/sub/mul), a multi-limb operand (div/mod/bitwise/shift by non-multiple of 64/text), comparison decided below the top limb or by sign, result of pow beyond one limb; distinct = (limb build, op, type, variant, operands)",
 		Gen:   c16Gen,
 		New:   func() any { return &c16Case{} },
 		Check: c16Check,
